@@ -38,14 +38,14 @@ def sh(cmd, cwd=None, env=None, timeout=None, check=True):
     return p
 
 
-def build_harness(pkg, tags="verif"):
+def build_harness(pkg, tags="verif", race=False):
     """(re)build one harness command from /repo's current working tree"""
     os.makedirs(BUILD, exist_ok=True)
     gosum = os.path.join(HARNESS, "go.sum")
     shutil.copyfile(os.path.join(REPO, "go.sum"), gosum)
-    out = os.path.join(BUILD, pkg)
+    out = os.path.join(BUILD, pkg + ("-race" if race else ""))
     t0 = time.time()
-    sh([GO, "build", "-tags", tags, "-o", out, "./" + pkg], cwd=HARNESS, timeout=1500)
+    sh([GO, "build"] + (["-race"] if race else []) + ["-tags", tags, "-o", out, "./" + pkg], cwd=HARNESS, timeout=3000)
     return out, time.time() - t0
 
 
